@@ -4,6 +4,7 @@ set -e
 cd "$(dirname "$0")/.."
 export CARGO_NET_OFFLINE=true
 (cd harness && cargo build --release --offline)
+(cd harness-alloc && cargo build --release --offline)
 if false; then
   sh fuzz/build.sh || echo "fuzz targets not built (thorough-tier fuzz phase will be skipped)"
 fi
